@@ -11,7 +11,7 @@ from .c08 import CANARY as NEXT
 RULE = ("tie-free generated programs (synchronous re-entry incl. the re-entry comb, failures, several batch kinds, contexts); every program is run under the "
         "default options and then under EACH single boolean option, under all-on, and under two generated subsets, with SCHEDULER_STATE_DUMP_INTERVAL=0 so "
         "that dump paths execute, and with a harness clock whose per-reading increment is drawn from {1, 1e3, 1e6, 3e9, 1e11} microseconds; "
-        "each run is followed, on the same scheduler and under the same options, by a fixed second computation and by a call whose argument cannot be "
+        "each run is followed, on the same scheduler and under the same options, by the same program once more, by a fixed further computation and by a call whose argument cannot be "
         "rendered (repr raises RecursionError); one case in two lowers MAX_TASK_STACK_SIZE so that the runaway-recursion guard may stop the program; "
         "non-trivial = the program has >= 1 flush (every case runs >= 22 option configurations); distinct = distinct case JSON")
 ASSUMPTIONS = ["traces are compared across runs, so programs are tie-free (distinct constant priority per batch kind, one DebugBatch name): the trace is a function of the program",
@@ -90,6 +90,8 @@ def run(prog, names, inc, limit=None):
         opts["MAX_TASK_STACK_SIZE"] = limit
     env = engine.run_program(copy.deepcopy(prog), options=opts, clock=engine.FakeClock(inc))
     t = engine.trace(env)
+    # ... the same program once more, nothing reset (whatever the first run left behind is there in the default-options history too)
+    t["same-program-again"] = engine.trace(engine.run_program(copy.deepcopy(prog), reset=False, clock=engine.FakeClock(inc)))
     import asynq.debug as D
     D.options.MAX_TASK_STACK_SIZE = engine._OPTION_DEFAULTS["MAX_TASK_STACK_SIZE"]
     nxt = engine.run_program(copy.deepcopy(NEXT), reset=False, clock=engine.FakeClock(inc))
